@@ -88,7 +88,7 @@ eav_result_t *is_6531_email(idn_resconf_t ctx, idn_action_t a, const char *e, si
 eav_result_t *is_6531_email(const char *e, size_t l, bool t) { return cb_invoke(EAV_RFC_6531, e, l, t); }
 #endif
 
-/* the IDN library's message function: one fixed non-empty message, argument recorded */
+/* the IDN library's message function: a non-empty message chosen by the code (two messages), argument recorded */
 /* longer than any fixed scratch buffer a copy might be squeezed into */
 static const char cb_idn_message[] = "idn-library-message: a character is forbidden in non-transitional mode (TR46)";
 static int cb_same_text(const char *a, const char *b)
@@ -100,17 +100,22 @@ static int cb_same_text(const char *a, const char *b)
     }
     return 1;
 }
-#define CB_IS_IDN_MESSAGE(m) cb_same_text((m), cb_idn_message)
+/* a second message of the same length: the message is a function of the code (odd / even), so that a
+ * message kept from an earlier failure with another code is told apart from this failure's */
+static const char cb_idn_message2[] = "idn-library-message: a character is forbidden in non-transitional mode (TR47)";
+#define CB_IDN_MSG_FOR(rc) ((((long) (rc)) & 1) ? cb_idn_message2 : cb_idn_message)
+#define CB_IS_IDN_MESSAGE(m) (cb_same_text((m), cb_idn_message) || cb_same_text((m), cb_idn_message2))
+#define CB_IS_IDN_MESSAGE_FOR(m, rc) cb_same_text((m), CB_IDN_MSG_FOR(rc))
 /* messages are compared by content: an implementation may hand out a copy */
 #define CB_SAME_MSG(a, b) ((a) == (b) || cb_same_text((a), (b)))
 static int cb_strerror_calls;
 static long cb_strerror_arg;
 #if defined(HAVE_LIBIDN2)
-const char *idn2_strerror(int rc) { cb_strerror_calls++; cb_strerror_arg = rc; return cb_idn_message; }
+const char *idn2_strerror(int rc) { cb_strerror_calls++; cb_strerror_arg = rc; return CB_IDN_MSG_FOR(rc); }
 #elif defined(HAVE_LIBIDN)
-const char *idna_strerror(Idna_rc rc) { cb_strerror_calls++; cb_strerror_arg = (int) rc; return cb_idn_message; }
+const char *idna_strerror(Idna_rc rc) { cb_strerror_calls++; cb_strerror_arg = (int) rc; return CB_IDN_MSG_FOR(rc); }
 #elif defined(HAVE_IDNKIT)
-const char *idn_result_tostring(idn_result_t rc) { cb_strerror_calls++; cb_strerror_arg = rc; return cb_idn_message; }
+const char *idn_result_tostring(idn_result_t rc) { cb_strerror_calls++; cb_strerror_arg = rc; return CB_IDN_MSG_FOR(rc); }
 #endif
 
 /* canonical message of an error code, taken from the real eav_errstr */
